@@ -13,20 +13,20 @@ import (
 
 // c10Entry is the reference model of one status entry.
 type c10Entry struct {
-	state   string
-	health  string
-	hasErr  bool
-	series  int64
-	total   int64
-	times   uint64
-	window  []int64
+	state  string
+	health string
+	hasErr bool
+	series int64
+	total  int64
+	times  uint64
+	window []int64
 }
 
 type c10Model struct {
-	st     map[uint64]*c10Entry
-	idleAt *time.Time // nil: not idle. Once observed, the exact reported instant.
-	idleLo time.Time  // bracket of the update that emptied the shard
-	idleHi time.Time
+	st       map[uint64]*c10Entry
+	idleAt   *time.Time // nil: not idle. Once observed, the exact reported instant.
+	idleLo   time.Time  // bracket of the update that emptied the shard
+	idleHi   time.Time
 	idleSeen bool
 }
 
